@@ -50,6 +50,11 @@
 namespace vshim {
 
 inline thread_local int self_id = -1;   // index of the scheduled thread running on this OS thread; -1 = controller
+inline thread_local int in_shim = 0;    // >0 while the shim itself logs an interposed atomic operation (lets a harness that
+struct shim_guard {                     // replaces operator new tell the shim's own string allocations from the library's)
+    shim_guard() { ++in_shim; }
+    ~shim_guard() { --in_shim; }
+};
 
 struct Sched {
     enum St { RUNNABLE, BLOCKED, FINISHED };
@@ -117,6 +122,7 @@ struct Sched {
     // an atomic constructed by a scheduled thread gets a positional name
     void auto_name(const void *a) {
         if (!active) return;
+        shim_guard g;
         int t = self_id;
         int n = anon_count[t]++;
         obj_names[a] = "a" + std::to_string(t) + "." + std::to_string(n);
@@ -124,6 +130,7 @@ struct Sched {
     }
     void forget(const void *a) {
         if (obj_names.empty()) return;
+        shim_guard g;
         obj_names.erase(a);
         tracked_objs.erase(a);
     }
@@ -381,6 +388,7 @@ public:
             if (_v == old) { const T *p = &_v; s.block([p, old] { return !(*p == old); }); }
             return;
         }
+        vshim::shim_guard g;
         if (_v == old) {
             s.log_op("wait-block " + s.obj_name(this));
             const T *p = &_v;
@@ -398,12 +406,14 @@ private:
     void op2(const char *kind, const T &seen, const T &desired) const {
         auto &s = vshim::S();
         if (!s.active || vshim::self_id < 0 || vshim::in_assert || s.skip_obj(this)) return;
+        vshim::shim_guard g;
         s.log_op(std::string(kind) + " " + s.obj_name(this) + " " + vshim::val_str(seen) + ">" + vshim::val_str(desired));
         s.yield();
     }
     void op(const char *kind, const T &seen) const {
         auto &s = vshim::S();
         if (!s.active || vshim::self_id < 0 || vshim::in_assert || s.skip_obj(this)) return;
+        vshim::shim_guard g;
         s.log_op(std::string(kind) + " " + s.obj_name(this) + " " + vshim::val_str(seen));
         s.yield();
     }
